@@ -431,9 +431,120 @@ def _eval_lockhook(case, v: Verdict) -> None:
         v.labels.append("lockhook:injected")
 
 
+def _hooked_dict_class():
+    """An OrderedDict that calls ``hook()`` before its n-th access: the pre-emption points inside one cache method."""
+    from collections import OrderedDict
+
+    class HookedDict(OrderedDict):
+        accesses = 0
+        at = -1
+        hook = None
+
+        def _tick(self) -> None:
+            if self.hook is not None:
+                self.accesses += 1
+                if self.accesses == self.at:
+                    hook, self.hook = self.hook, None
+                    hook()
+
+    def wrap(name):
+        orig = getattr(OrderedDict, name)
+
+        def method(self, *a, **kw):
+            self._tick()
+            return orig(self, *a, **kw)
+
+        method.__name__ = name
+        return method
+
+    for name in ("__getitem__", "__setitem__", "__delitem__", "__contains__", "__len__", "__iter__", "__reversed__", "get", "pop",
+                 "popitem", "move_to_end", "keys", "values", "items", "setdefault", "update", "clear"):
+        setattr(HookedDict, name, wrap(name))
+    return HookedDict
+
+
+_HOOKED: dict = {}
+
+
+def _eval_accesshook(case, v: Verdict) -> None:
+    """Another thread's whole operation runs just before the n-th access that one call of the thread-safe cache makes to
+    its underlying dict - if the cache's lock is free at that moment (if it is held, no other thread could get in there).
+    The two operations together must then look like one of their two sequential orders (results and final contents)."""
+    cls = _classes()["ts"]
+    cap = case["cap"]
+    cache = cls(cap)
+    from collections import OrderedDict
+
+    slots = [k for k, val in vars(cache).items() if isinstance(val, OrderedDict)]
+    locks = [k for k, val in vars(cache).items() if hasattr(val, "acquire") and hasattr(val, "release")]
+    if len(slots) != 1 or len(locks) != 1:
+        v.labels.append("accesshook:unrecognised-layout")
+        return
+    model = ModelLRU(cap)
+    for step, (op, key) in enumerate(case["pre"]):
+        _apply_real(cache, op, key, step)
+        _apply_model(model, op, key, step)
+    if "cls" not in _HOOKED:
+        _HOOKED["cls"] = _hooked_dict_class()
+    hd = _HOOKED["cls"](getattr(cache, slots[0]))
+    setattr(cache, slots[0], hd)
+    lock = HookLock()
+    setattr(cache, locks[0], lock)
+    (vop, vkey), (iop, ikey) = case["victim"], case["inject"]
+    box: dict = {}
+
+    def injected() -> None:
+        if lock.owner is not None:
+            box["excluded"] = True  # the victim holds the lock here: mutual exclusion works at this point
+            return
+        box["result"] = _apply_real(cache, iop, ikey, 99)
+
+    if case.get("point") == "release":
+        # ... or right after the n-th release of the lock inside the call (between two critical sections of one method)
+        lock.hook = injected
+        lock.at = case["n"]
+    else:
+        hd.hook = injected
+        hd.at = case["n"]
+    got_v = _apply_real(cache, vop, vkey, 50)
+    hd.hook = None
+    lock.hook = None
+    if "result" not in box:
+        v.labels.append("accesshook:" + ("excluded-by-lock" if box.get("excluded") else "no-such-access"))
+        return
+    got_i = box["result"]
+    final = _apply_real(cache, "items", None, 0)
+    # the two sequential orders on the reference model
+    accepted = []
+    for order in ("victim-first", "injected-first"):
+        m = ModelLRU(cap)
+        for step, (op, key) in enumerate(case["pre"]):
+            _apply_model(m, op, key, step)
+        if order == "victim-first":
+            rv = _apply_model(m, vop, vkey, 50)
+            ri = _apply_model(m, iop, ikey, 99)
+        else:
+            ri = _apply_model(m, iop, ikey, 99)
+            rv = _apply_model(m, vop, vkey, 50)
+        accepted.append((rv, ri, ("ok", m.pairs())))
+    norm = lambda o: (o[0], [tuple(x) if isinstance(x, (list, tuple)) else x for x in o[1]] if isinstance(o[1], list) else o[1])  # noqa: E731
+    mine = (norm(got_v), norm(got_i), norm(final))
+    if mine not in [tuple(norm(x) for x in a) for a in accepted]:
+        v.fail(
+            f"accesshook:not-atomic:{vop}",
+            f"pre={case['pre']} cap={cap}: {vop}({vkey!r}) pre-empted {'after its lock release' if case.get('point') == 'release' else 'before its dict access'} #{case['n']} (lock free) by {iop}({ikey!r}): "
+            f"victim -> {got_v}, injected -> {got_i}, contents {final[1]}; sequential orders give {accepted}",
+        )
+    v.nontrivial = True
+    v.labels.append("accesshook:injected")
+
+
 def evaluate(case) -> Verdict:
     v = Verdict()
     kind = case.get("kind", "seq")
+    if kind == "accesshook":
+        _eval_accesshook(case, v)
+        return v
     if kind == "seq":
         _eval_seq(case, v)
     elif kind == "sched":
@@ -567,10 +678,29 @@ def _lockhook_exhaustive(ctx: core.Ctx, shard: int, nshards: int) -> None:
                             ctx.run({"kind": "lockhook", "cap": cap, "pre": pre, "call": call, "inject": inj, "k": k})
 
 
+def _accesshook_exhaustive(ctx: core.Ctx, shard: int, nshards: int) -> None:
+    keys = ["a", "b", "c"]
+    pres = [[], [["set", "a"]], [["set", "a"], ["set", "b"]], [["set", "a"], ["set", "b"], ["set", "c"]], [["set", "a"], ["set", "b"], ["get", "a"]]]
+    victims = [[op, k] for op in ("get", "getitem", "set", "del", "contains") for k in keys[:2]] + [[op, None] for op in ("len", "keys", "values", "items", "iter")]
+    injects = [["set", k] for k in ["a", "d"]] + [["del", k] for k in keys[:2]] + [["get", k] for k in keys[:2]]
+    i = 0
+    for cap in (1, 2, 3):
+        for pre in pres:
+            for victim in victims:
+                for inj in injects:
+                    for n in (1, 2, 3, 4):
+                        i += 1
+                        if i % nshards == shard:
+                            ctx.run({"kind": "accesshook", "cap": cap, "pre": pre, "victim": victim, "inject": inj, "n": n}, enumerated=True)
+                            if n <= 2:
+                                ctx.run({"kind": "accesshook", "cap": cap, "pre": pre, "victim": victim, "inject": inj, "n": n, "point": "release"}, enumerated=True)
+
+
 def campaign(ctx: core.Ctx, tier: str, shard: int, nshards: int) -> None:
     quick = tier == "quick"
     _exhaustive(ctx, 4 if quick else 5, shard, nshards)
     _lockhook_exhaustive(ctx, shard, nshards)
+    _accesshook_exhaustive(ctx, shard, nshards)
     _sched_exhaustive(ctx, shard, nshards, 2 if quick else 3)
     seed = core.sub_seed(ctx.seed, shard)
     core.drive(_long_seq(), ctx.run, n=(400 if quick else 6000), seed=seed)
@@ -604,7 +734,11 @@ def finish_kwargs(ctx: core.Ctx, tier: str) -> dict:
             "drained; non-trivial = the cache changed between begin and end; and lock-release schedules: another "
             "thread's set/del/get is run at the 1st/2nd/3rd release of the cache's lock inside one listing call, and "
             "the listing must equal the contents before or after it (exhaustive over 5 pre-states x 4 listings x 10 "
-            "injected ops x capacities 1-3). (d) 2-16 real threads with "
+            "injected ops x capacities 1-3); access schedules: another thread's whole set/del/get runs just before the 1st-4th access "
+            "that one call (get, [], set, del, in, len, keys, values, items, iter) makes to the underlying dict - only if the cache's lock "
+            "is free at that moment - or right after the call's 1st/2nd lock release, and the pair must look like one of its two "
+            "sequential orders: results and final contents (exhaustive over 5 pre-states x 15 calls x 6 injected ops x capacities 1-3). "
+            "(d) 2-16 real threads with "
             "switch interval 1e-6; any exception, over-capacity or invented pair fails. The cache's "
             "lock is replaced by one that raises when its holder takes it again (a self-deadlock is a failure, not a hang)."
         ),
